@@ -247,3 +247,10 @@ PROPS["C10"] = {
             "distinct = (type shape, case class, configuration)",
     "assumptions": LAB_ASSUME + ["unknown-ness is observed through the Debug rendering of the parsed value (variant name Unknown...)"],
 }
+
+# lab halves (generated enums / aliases / objects / unions / errors of random definitions)
+PROPS["C12"]["stages"] = [rt_stage, labchecks.plain_stage]
+PROPS["C12"]["assumptions"] = [a for a in PROPS["C12"]["assumptions"] if "lab half" not in a] + ["generated enums and aliases: lab half (random definitions, real generator, rustc)"]
+PROPS["C14"]["stages"] = [rt_stage, labchecks.laws_stage]
+PROPS["C14"]["assumptions"] = [a for a in PROPS["C14"]["assumptions"]] + ["generated types of random definitions: lab half, all triples of 14-30 values per double-bearing type"]
+PROPS["C17"]["stages"] = [rt_stage, labchecks.errors_stage]
